@@ -8,6 +8,11 @@
 (* Variant "code"  : _find_matches returns after the first same-sized          *)
 (*                   candidate whether or not it matched (pinned commit)       *)
 (* Variant "fixed" : it goes on to the next candidate                          *)
+(* Variant "nopad" : as fixed, but padding entries of piece-aligned metafiles  *)
+(*                   are looked up like files (state before 4af3d68): a piece  *)
+(*                   that contains padding can never verify                    *)
+(* A padding entry (BEP 47, written by --align) is a file whose candidate list *)
+(* is <<"pad">>: it stands for zero bytes, is never searched, copied, counted. *)
 (* AllowPartialFirst: whether a partially matching decoy may be enumerated     *)
 (* before the intact copy.  With TRUE the model exhibits the KNOWN FINDING of  *)
 (* C13: a file is placed as soon as ONE piece containing it verifies, later    *)
@@ -27,10 +32,14 @@ RangeOK(cls, size, lo, len) ==
 MP == INSTANCE MapPieces WITH Variant <- "fixed", PieceLens <- {}, st <- 0
 PieceMap(sz) == LET m == MP!MapAll(sz, P) IN [k \in DOMAIN m |-> MP!Ranges(sz, m[k])]
 
+IsPad(cands, f) == cands[f] = <<"pad">>
 RECURSIVE Dfs(_, _, _, _)
 \* _find_matches over slices[j..]: <<found, choices>> with choices = <<file, candidate index>>*
 Dfs(sizes, cands, slices, j) ==
     IF j > Len(slices) THEN <<TRUE, <<>>>>
+    ELSE IF IsPad(cands, slices[j][1])
+    THEN (IF Variant = "fixed" THEN Dfs(sizes, cands, slices, j + 1)      \* zeros always verify, nothing is chosen
+          ELSE <<FALSE, <<>>>>)                                            \* `filename not in filemap`
     ELSE LET f == slices[j][1]
              cs == cands[f]
              RECURSIVE Try(_)
@@ -73,10 +82,11 @@ VARIABLES sizes, cands, dest, dsize, copied, piece, pc
 vars == <<sizes, cands, dest, dsize, copied, piece, pc>>
 NP == CeilDiv(SumSeq(sizes), P)
 
-CandLists == UNION {[1 .. n -> Classes] : n \in 1 .. 2}
+CandLists == UNION {[1 .. n -> Classes \ {"pad"}] : n \in 1 .. 2} \cup (IF "pad" \in Classes THEN {<<"pad">>} ELSE {})
 PartialBeforeIntact(cs) == \E a, b \in DOMAIN cs : a < b /\ cs[b] = "intact" /\ cs[a] \in {"decoy_some", "decoy_head"}
 Init == \E n \in 1 .. MaxFiles : \E sz \in [1 .. n -> 0 .. MaxSize] : \E cd \in [1 .. n -> CandLists] :
           /\ SumSeq(sz) > 0
+          /\ \A f \in 1 .. n : IsPad(cd, f) => sz[f] > 0 /\ sz[f] < P       \* a padding entry fills up a piece
           /\ AllowPartialFirst \/ \A f \in 1 .. n : ~PartialBeforeIntact(cd[f])
           /\ sizes = sz /\ cands = cd
           /\ dest = [f \in 1 .. n |-> 0] /\ dsize = [f \in 1 .. n |-> 0]
@@ -92,9 +102,11 @@ Spec == Init /\ [][Step]_vars
 ClosureAgrees == pc = "done" => dest = MatchAll(sizes, cands)
 ClassOf(f) == IF dest[f] = 0 THEN "absent" ELSE cands[f][dest[f]]
 \* C14: a candidate none of whose bytes verify is never placed
-Safe == \A f \in DOMAIN sizes : (sizes[f] > 0 /\ dest[f] # 0) => ClassOf(f) # "decoy_all"
+Safe == /\ \A f \in DOMAIN sizes : (sizes[f] > 0 /\ dest[f] # 0) => ClassOf(f) # "decoy_all"
+        /\ \A f \in DOMAIN sizes : IsPad(cands, f) => dest[f] = 0              \* nothing is ever written for padding
 \* C13: complete whenever an intact copy of every file is available
 CompleteRun == pc = "done" =>
-               ((\A f \in DOMAIN sizes : \E k \in DOMAIN cands[f] : cands[f][k] = "intact")
-                  => \A f \in DOMAIN sizes : ClassOf(f) = "intact" \/ (sizes[f] = 0 /\ dest[f] # 0))
+               LET Real == {f \in DOMAIN sizes : ~IsPad(cands, f)} IN
+               ((\A f \in Real : \E k \in DOMAIN cands[f] : cands[f][k] = "intact")
+                  => \A f \in Real : ClassOf(f) = "intact" \/ (sizes[f] = 0 /\ dest[f] # 0))
 =============================================================================
